@@ -233,6 +233,16 @@ func encodeStream(s *Stream) ([]byte, Dict) {
 				data = filt.TIFFForward(data, cols, 1)
 				parms[i] = Dict{{"Predictor", Int(2)}, {"Columns", Int(cols)}}
 				anyParm = true
+			} else if s.Pred && s.PredColors > 1 {
+				// rows of 4 samples of PredColors components: the neighbour "to the left" is PredColors bytes away
+				const cols = 4
+				row := cols * s.PredColors
+				for len(data)%row != 0 {
+					data = append(append([]byte(nil), data...), ' ')
+				}
+				data = filt.PNGForward(data, row, s.PredColors, []int{2, 1, 4, 3, 0})
+				parms[i] = Dict{{"Predictor", Int(15)}, {"Colors", Int(s.PredColors)}, {"Columns", Int(cols)}}
+				anyParm = true
 			} else if s.Pred {
 				const cols = 4
 				for len(data)%cols != 0 {
